@@ -138,6 +138,7 @@ type TreeGen struct {
 	IndexOpts bool
 	Wraps     bool
 	MutexOpt  bool
+	WideRuns  bool // at most one node per tree additionally gets a run of 12..40 plain leaves (not counted against Budget)
 	Ambient   bool // neutral settings (identifier, category, aux, less, accepting closures, logger, mutex) on a random half of the nodes
 	FIFOOpt   bool
 	NilLeaves bool
@@ -148,6 +149,7 @@ type TreeGen struct {
 type treeState struct {
 	g      *TreeGen
 	budget int
+	wide   bool // the one wide run has been placed
 }
 
 func (g TreeGen) Draw(t *rapid.T) Node {
@@ -214,6 +216,16 @@ func (st *treeState) stack(t *rapid.T, depth int, kinds []string) Node {
 	w := rapid.IntRange(minW, g.MaxWidth).Draw(t, "width")
 	for i := 0; i < w && st.budget > 0; i++ {
 		n.Elems = append(n.Elems, st.elem(t, depth+1))
+	}
+	if g.WideRuns && !st.wide && rapid.IntRange(0, 11).Draw(t, "wide?") == 0 {
+		st.wide = true
+		k := rapid.IntRange(12, 40).Draw(t, "widerun")
+		at := rapid.IntRange(0, len(n.Elems)).Draw(t, "wideat")
+		run := make([]Node, 0, k)
+		for i := 0; i < k; i++ {
+			run = append(run, LeafN(VI(int64(i))))
+		}
+		n.Elems = append(n.Elems[:at:at], append(run, n.Elems[at:]...)...)
 	}
 	st.stackOpts(t, &n)
 	return n
